@@ -181,7 +181,11 @@ func (h *cbMembership) monitor() {
 		ids = append(ids, k)
 	}
 	sort.SliceStable(ids, func(i, j int) bool {
-		return all[ids[i]] < all[ids[j]]
+		if all[ids[i]] != all[ids[j]] {
+			return all[ids[i]] < all[ids[j]]
+		}
+
+		return ids[i] < ids[j]
 	})
 
 	instances := make([]*Instance, len(ids))
